@@ -27,6 +27,8 @@ import (
 
 type pworld struct {
 	root    *tn
+	env     *tn          // environment (Env option), nil: none
+	envCfg  *ucfg.Config // the environment as library object
 	res     map[string]string
 	aliases []string // paths of alias settings
 	texts   []string // paths of text settings
@@ -49,10 +51,35 @@ func (t *pworld) lookup(path string) *tn {
 func (t *pworld) describe() string {
 	var b strings.Builder
 	t.root.render(&b)
+	if t.env != nil {
+		b.WriteString(" Env=")
+		t.env.render(&b)
+	}
 	if t.res == nil {
 		return b.String() + " resolvers=[]"
 	}
 	return fmt.Sprintf("%s resolvers=[%v]", b.String(), t.res)
+}
+
+// shapeHash: a number derived from the names and nesting of the tree.
+func shapeHash(n *tn) int {
+	h := 17
+	switch n.kind {
+	case 'o':
+		for _, k := range sortedKids(n) {
+			for _, c := range []byte(k) {
+				h = (h*31 + int(c)) & 0xffffff
+			}
+			h = (h*131 + shapeHash(n.kids[k])) & 0xffffff
+		}
+	case 'l':
+		for _, c := range n.elems {
+			h = (h*137 + shapeHash(c)) & 0xffffff
+		}
+	default:
+		h = (h*7 + int(n.kind)) & 0xffffff
+	}
+	return h
 }
 
 func prim(r *rand.Rand) *tn { return &tn{kind: 'v', val: int64(1 + r.Intn(9))} }
@@ -120,6 +147,51 @@ func genPaths(r *rand.Rand) *pworld {
 		t.root.kids["i"] = prim(r)
 	}
 
+	// a third of the worlds (chosen by their shape, no draw from r: the other
+	// worlds stay what they were) are read with an environment: an empty one,
+	// or one defining names the configuration has as well, or does not have,
+	// by literals and by references of its own
+	var envNames, envOnly []string
+	if h := shapeHash(t.root); h%3 == 0 {
+		er := rand.New(rand.NewSource(int64(h)))
+		t.env = &tn{kind: 'o', kids: map[string]*tn{}}
+		if er.Intn(8) != 0 { // else: an empty environment
+			// names only the environment has, and names the configuration has too
+			envOnly = []string{"ea", "eb", "ec"}[:1+er.Intn(3)]
+			var both []string
+			for _, k := range sortedKids(t.root) {
+				if n := t.root.kids[k]; n.kind == 'e' && er.Intn(3) == 0 {
+					both = append(both, k)
+				}
+			}
+			keys := append(append([]string{}, envOnly...), both...)
+			cfgNames := sortedKids(t.root)
+			for _, k := range keys {
+				n := &tn{kind: 'e'}
+				other := keys[er.Intn(len(keys))]
+				if er.Intn(3) == 0 {
+					other = cfgNames[er.Intn(len(cfgNames))]
+				}
+				switch v := er.Intn(10); {
+				case v < 3:
+					n.ex = model.Lit("e" + k)
+				case v < 4:
+					n.kind, n.val = 'v', int64(1+er.Intn(9))
+				case v < 8:
+					n.ex = model.Ref(other)
+				default:
+					n.ex = (&model.Ex{Kind: model.XCat, Kids: []*model.Ex{model.Lit("e"), model.Ref(other)}}).Normalize()
+				}
+				t.env.kids[k] = n
+				envNames = append(envNames, k)
+			}
+			if er.Intn(3) == 0 {
+				t.env.kids["eo"] = &tn{kind: 'o', kids: map[string]*tn{"k": {kind: 'e', ex: model.Lit("eok")}}}
+				envNames = append(envNames, "eo", "eo.k")
+				envOnly = append(envOnly, "eo", "eo.k")
+			}
+		}
+	}
 	// the pool of names: literal paths, and paths through aliases
 	pool := map[string]bool{"zz": true, "zz.k": true}
 	var lit func(n *tn, path string)
@@ -155,6 +227,11 @@ func genPaths(r *rand.Rand) *pworld {
 		t.names = append(t.names, n)
 	}
 	sort.Strings(t.names)
+	for _, n := range envNames {
+		if !pool[n] {
+			t.names = append(t.names, n)
+		}
+	}
 
 	// alias targets
 	target := func(self string) string {
@@ -177,6 +254,9 @@ func genPaths(r *rand.Rand) *pworld {
 		case k < 18:
 			return "zz"
 		}
+		if len(envOnly) > 0 && r.Intn(2) == 0 {
+			return pick(r, envOnly) // a name only the environment knows
+		}
 		return pick(r, t.names)
 	}
 	for _, a := range t.aliases {
@@ -191,6 +271,9 @@ func genPaths(r *rand.Rand) *pworld {
 	// texts
 	for _, p := range t.texts {
 		names := []string{pick(r, t.names)}
+		if len(envOnly) > 0 && r.Intn(2) == 0 {
+			names[0] = pick(r, envOnly)
+		}
 		for i, c := 0, 1+r.Intn(4); i < c; i++ {
 			if r.Intn(3) == 0 {
 				names = append(names, pick(r, t.texts))
@@ -223,6 +306,9 @@ func genPaths(r *rand.Rand) *pworld {
 
 func (t *pworld) opts() []ucfg.Option {
 	opts := append([]ucfg.Option{}, vx.BaseOpts...)
+	if t.envCfg != nil {
+		opts = append(opts, ucfg.Env(t.envCfg))
+	}
 	if t.res != nil {
 		known := t.res
 		opts = append(opts, ucfg.Resolve(func(n string) (string, parse.Config, error) {
@@ -235,7 +321,24 @@ func (t *pworld) opts() []ucfg.Option {
 	return opts
 }
 
-func (t *pworld) newPev() *pev { return &pev{root: t.root, res: t.res} }
+func (t *pworld) newPev() *pev {
+	p := &pev{root: t.root, res: t.res}
+	if t.env != nil {
+		p.env, p.envNodes = t.env, map[*tn]bool{}
+		var mark func(n *tn)
+		mark = func(n *tn) {
+			p.envNodes[n] = true
+			for _, c := range n.kids {
+				mark(c)
+			}
+			for _, c := range n.elems {
+				mark(c)
+			}
+		}
+		mark(t.env)
+	}
+	return p
+}
 
 // hasReason: err (or an error it wraps) has the reason r.
 func hasReason(err error, r error) bool {
@@ -263,9 +366,30 @@ type preader struct {
 
 func (pr *preader) blocked() bool { return pr.blocking > 0 || pr.g.aborted }
 
+// sigFor composes the signature of a deviation. Two dimensions are classes
+// of their own, whatever the entry point resp. the kind of deviation:
+// members tagged with a path that leads through a reference (they have to
+// behave like the nested members the tag stands for), and reads with an
+// environment.
+func (pr *preader) sigFor(entry, class string) string {
+	switch {
+	case strings.HasSuffix(entry, ":tag-through-reference"):
+		return pr.prefix + entry + "-differs-from-nested-members"
+	case pr.t.env != nil:
+		switch class {
+		case "cycle-not-reported", "cycle-reported-as-missing", "cycle-error-not-identifiable":
+			class = "cycle-not-reported-as-cyclic"
+		case "repeated-use-reported-as-cycle":
+			class = "false-cycle"
+		}
+		return pr.prefix + "with-env:" + class
+	}
+	return pr.prefix + entry + ":" + class
+}
+
 func (pr *preader) violate(entry, class, format string, a ...interface{}) {
 	pr.blocking++
-	pr.res.Violate(pr.prefix+entry+":"+class, format+"; %s", append(a, pr.desc)...)
+	pr.res.Violate(pr.sigFor(entry, class), "["+entry+":"+class+"] "+format+"; %s", append(a, pr.desc)...)
 }
 
 // judgeErr handles the failure side of a read. want: the model's failure (nil:
@@ -295,10 +419,10 @@ func (pr *preader) judgeErr(entry, what string, m *pev, want *pval, got error) b
 		if hasReason(got, ucfg.ErrMissing) {
 			class = "cycle-reported-as-missing"
 		}
-		sig := pr.prefix + entry + ":" + class
+		sig := pr.sigFor(entry, class)
 		if !pr.once[sig] {
 			pr.once[sig] = true
-			pr.res.Violate(sig, "%s failed with %q, model: unabsorbed cyclic reference, expected a cyclic reference error; %s", what, got, pr.desc)
+			pr.res.Violate(sig, "["+entry+":"+class+"] %s failed with %q, model: unabsorbed cyclic reference, expected a cyclic reference error; %s", what, got, pr.desc)
 		}
 		return false
 	}
@@ -344,6 +468,12 @@ func (pr *preader) readPath(P string) {
 		}
 	}
 	res.SetAdd("path_chain_of_plain_references", hopsLabel(m.maxChain))
+	if m.fromEnv > 0 {
+		res.Ev("path_reads_with_names_answered_by_the_environment", 1)
+	}
+	if m.envRefs > 0 {
+		res.Ev("path_reads_evaluating_references_written_in_the_environment", 1)
+	}
 	// model outcome in string context
 	var strFail *pval
 	switch {
@@ -459,9 +589,17 @@ func (pr *preader) readPath(P string) {
 			return
 		}
 	}
-	// Unpack into a one-member struct whose tag is the path: interface{}
+	// Unpack into a one-member struct whose tag is the path: interface{}. A
+	// tag with several elements stands for nested members: the references its
+	// path leads through stay under evaluation while the setting is unpacked.
+	m2 := t.newPev()
+	n, fail, _, tagSt := m2.walkKeep(P, nil, true)
+	unpackEntry, sliceEntry := "unpack", "slice-target"
+	if len(tagSt) > 0 {
+		res.Ev("path_tag_walks_keeping_references_under_evaluation", 1)
+		unpackEntry, sliceEntry = "unpack:tag-through-reference", "slice-target:tag-through-reference"
+	}
 	if fail == nil || fail.kind != "type" {
-		m2 := t.newPev()
 		d := &deepOut{}
 		var want interface{}
 		var uf *pval
@@ -470,7 +608,7 @@ func (pr *preader) readPath(P string) {
 				uf = fail
 			}
 		} else {
-			want = m2.deep(m2.evalNode(n, nil), d)
+			want = m2.deep(m2.evalNode(n, tagSt), d)
 		}
 		if !m2.tooBig && !m2.ambiguous {
 			var got interface{}
@@ -480,11 +618,11 @@ func (pr *preader) readPath(P string) {
 			res.SetAdd("path_entry", "Unpack(member tagged with the path)")
 			what := fmt.Sprintf("Unpack into struct{V interface{} `config:%q`}", P)
 			if uf != nil || fail != nil {
-				if pr.judgeErr("unpack", what, m, uf, err) && err == nil && got != nil {
-					pr.violate("unpack", "wrong-substitution", "%s gives %s, model: the setting is missing", what, canonLenient(got))
+				if pr.judgeErr(unpackEntry, what, m, uf, err) && err == nil && got != nil {
+					pr.violate(unpackEntry, "wrong-substitution", "%s gives %s, model: the setting is missing", what, canonLenient(got))
 				}
 			} else {
-				pr.judgeDeep("unpack", what, m2, d, want, got, err)
+				pr.judgeDeep(unpackEntry, what, m2, d, want, got, err)
 			}
 		}
 		if pr.blocked() {
@@ -493,7 +631,7 @@ func (pr *preader) readPath(P string) {
 	}
 	// slice and array targets: a primitive reads as a list of one
 	if fail == nil {
-		pr.readSlices(P, n)
+		pr.readSlices(P, n, tagSt, sliceEntry)
 	}
 }
 
@@ -530,9 +668,9 @@ var (
 
 // sliceModel: what the setting n gives when read as a list. ok=false: not a
 // list-able value by the model (an object), not read.
-func (pr *preader) sliceModel(m *pev, n *tn) (want []interface{}, d *deepOut, allInt, allLeaf, ok bool) {
+func (pr *preader) sliceModel(m *pev, n *tn, st []string) (want []interface{}, d *deepOut, allInt, allLeaf, ok bool) {
 	d = &deepOut{}
-	v := m.evalNode(n, nil)
+	v := m.evalNode(n, st)
 	allInt, allLeaf = true, true
 	switch {
 	case v.err:
@@ -589,10 +727,10 @@ func toIfcSlice(v reflect.Value) interface{} {
 	return out
 }
 
-func (pr *preader) readSlices(P string, n *tn) {
+func (pr *preader) readSlices(P string, n *tn, st []string, entry string) {
 	t, c, opts, res := pr.t, pr.c, pr.opts, pr.res
 	m := t.newPev()
-	want, d, allInt, allLeaf, ok := pr.sliceModel(m, n)
+	want, d, allInt, allLeaf, ok := pr.sliceModel(m, n, st)
 	if !ok || m.tooBig || m.ambiguous {
 		return
 	}
@@ -621,7 +759,7 @@ func (pr *preader) readSlices(P string, n *tn) {
 		if err == nil {
 			g = toIfcSlice(reflect.ValueOf(got))
 		}
-		pr.judgeDeep("slice-target", fmt.Sprintf("Unpack into struct{V %v `config:%q`}", ty, P), m, d, interface{}(want), g, err)
+		pr.judgeDeep(entry, fmt.Sprintf("Unpack into struct{V %v `config:%q`}", ty, P), m, d, interface{}(want), g, err)
 		if pr.blocked() {
 			return
 		}
@@ -658,7 +796,7 @@ func (pr *preader) readWhole() {
 	ms := t.newPev()
 	ds := &deepOut{}
 	for _, k := range sortedKids(t.root) {
-		w, dk, _, _, ok := pr.sliceModel(ms, t.root.kids[k])
+		w, dk, _, _, ok := pr.sliceModel(ms, t.root.kids[k], nil)
 		if !ok {
 			continue
 		}
@@ -837,6 +975,22 @@ func runPaths(res *harness.R, r *rand.Rand, verbose bool) {
 	if err != nil {
 		res.Violate("build-error", "building the config failed: %v; %s", err, desc)
 		return
+	}
+	if t.env != nil {
+		var eerr error
+		if p, pv, where := harness.Safe(func() { t.envCfg, eerr = ucfg.NewFrom(t.env.toGo(), vx.BaseOpts...) }); p || eerr != nil {
+			res.Violate("build-error", "building the environment failed: %v %v %v; %s", eerr, pv, where, desc)
+			return
+		}
+		res.Ev("path_worlds_with_environment", 1)
+		if len(t.env.kids) == 0 {
+			res.Ev("path_worlds_with_empty_environment", 1)
+		}
+		for k := range t.env.kids {
+			if t.root.kids[k] != nil {
+				res.Ev("path_environment_names_the_configuration_has_as_well", 1)
+			}
+		}
 	}
 	res.Ev("path_worlds", 1)
 	if t.chain {
